@@ -5,7 +5,7 @@ import json, os
 NMAX = int(os.environ.get('MPX_NMAX', 6))     # fragment bytes  0..NMAX   (quick tier)
 MMAX = int(os.environ.get('MPX_MMAX', 3))     # carried bytes   0..MMAX   (quick tier)
 NTH = int(os.environ.get('MPX_NTH', 10))      # thorough tier: additionally up to NTH x MTH
-MTH = int(os.environ.get('MPX_MTH', 5))
+MTH = int(os.environ.get('MPX_MTH', 6))
 GEN = [(6, 0), (3, 3)]                         # variants that enter with NO patterns (real gen_regex executed)
 
 def uws(T):
@@ -36,6 +36,7 @@ for L in range(0, max(NMAX, NTH) + 1):
         variants.append({"suffix": "l%d_c%d" % (L, M), "defines": ["MPX_L=%d" % L, "MPX_M=%d" % M],
                          "unwindset": uws(T), "bound": bound(L, M, False),
                          "tier": "quick" if quick else "thorough", "timeout": 600 if quick else 1500})
+variants.sort(key=lambda v: (v['tier'] != 'quick', v['suffix'].endswith('_c6')))   # stable: the 6-byte column last
 for L, M in GEN:
     variants.append({"suffix": "gen_l%d_c%d" % (L, M), "defines": ["MPX_L=%d" % L, "MPX_M=%d" % M, "MPX_GEN"],
                      "unwindset": uws(L + M), "bound": bound(L, M, True), "tier": "quick"})
